@@ -128,7 +128,8 @@ int main(int argc, char** argv)
     for (int h = 0; h < nhist; ++h)
     {
         container c;
-        c.type = (int) R.below(7);
+        c.type = (int) R.below(8);
+        if (c.type == 7) c.type = t_fifo;
         int first = 0, last = 0;
         if (c.type == t_ciq || c.type == t_ciq_u32)
         {
@@ -164,6 +165,7 @@ int main(int argc, char** argv)
         ev("init").i("first", first).i("last", last).i("type", c.type).done();
 
         int nthr = 1 + (int) R.below(4);    // 1 thread = sequential order check
+        if (c.type == t_fifo && nthr == 1 && R.chance(1, 2)) nthr = 2 + (int) R.below(3);
         int total = 6 + (int) R.below(16);
         std::vector<std::vector<opdesc>> scripts(nthr);
         int nextv = 1;
@@ -213,15 +215,28 @@ int main(int argc, char** argv)
         }
 
         std::atomic<int> go{0};
+        std::atomic<int> arrived{0};
+        int nstart = 0;
+        for (int t = 0; t < nthr; ++t) nstart += !scripts[t].empty();
+        bool rendezvous = c.type == t_fifo || R.chance(1, 3);
         std::vector<std::thread> thr;
         for (int t = 0; t < nthr; ++t)
         {
             thr.emplace_back([&, t] {
                 while (!go.load()) {}
+                bool first_op = true;
                 for (auto const& o : scripts[t])
                 {
                     for (int s = 0; s < o.spin * 40; ++s) { asm volatile("" ::: "memory"); }
                     ev("call").i("a", t + 1).s("op", absname[o.o]).i("v", o.v).done();
+                    if (first_op && rendezvous)
+                    {
+                        // the first operations of all threads are released together, after their call
+                        // records were written (the logging would otherwise stagger them)
+                        ++arrived;
+                        while (arrived.load(std::memory_order_relaxed) < nstart) {}
+                    }
+                    first_op = false;
                     long r = exec(c, o.o, o.v);
                     ev("ret").i("a", t + 1).i("res", r).done();
                 }
